@@ -242,5 +242,6 @@ def check(ctx):
     ctx.ob('R4', fa, 'coords=', True if okc else (False if c is not None and c.geo is not None else None),
            'displacements - drift' if okc else f'coordinates of the corrected trajectory are {geo_text(c.geo) if c is not None else "?"}')
     okd = cad is not None and has_const(cad) and cval(cad) is True
-    ctx.ob('R4', fa, 'coords_are_displacement=', True if okd else False,
+    cad_unknown = (cad is not None and not has_const(cad)) or (cad is None and kw.get('**') is not None)
+    ctx.ob('R4', fa, 'coords_are_displacement=', True if okd else (None if cad_unknown else False),
            'stored in displacement mode' if okd else 'displacement vectors are stored as if they were positions')
